@@ -321,9 +321,13 @@ def add_dfta_constraints(
     )
     for constraint in parsed_constraints:
         # Skip empty allow since it means the primitive was not recognized
+        # and patterns that constrain no argument
         if isinstance(constraint, TokenAnything) or (
             isinstance(constraint, TokenFunction)
-            and len(constraint.function.allowed) == 0
+            and (
+                len(constraint.function.allowed) == 0
+                or all(isinstance(arg, TokenAnything) for arg in constraint.args)
+            )
         ):
             if pbar:
                 pbar.update(1)
